@@ -29,11 +29,21 @@ W = 'circus.watcher:Watcher.'
 
 
 def check(run, ctx):
-    run.each(ctx, [r1, r2, r3, r5, r6])
+    run.each(ctx, [r1, r2, r3, r5, r6, r7])
 
 
 def _f(ctx):
     return ctx.fn(A + 'reload_from_config')
+
+
+def r7(run, ctx):
+    from rules import c16
+    run.share(ctx, c16.r1, 'R1', 'R7', 'two parses of the file give two independent '
+              'configurations (shared with C16 R1, the freshness obligations): reload_from_config '
+              'compares the new parse with the one the watcher was built from, and nested option '
+              'dicts (rlimits, hooks, stream options) that are one shared object always compare '
+              'equal - edits to them are never applied',
+              keep=lambda key: 'share nested containers' in key)
 
 
 def r1(run, ctx):
